@@ -13,7 +13,7 @@
      track / precond_ok              the boolean tracker of the documented incremental-sync precondition
      row_is m a s S f                row (s,a) of the model holds finite cells equal (==) to f 0 .. f (S-1) *)
 From Coq Require Import List Arith ZArith QArith Bool.
-From AIT Require Import Base.Qx C07.Model C07.Spec C07.ProofsExp C07.ProofsMl C07.ProofsInv C07.ProofsTop C07.ProofsExtra C07.ProofsCoop.
+From AIT Require Import Base.Qx C07.Model C07.Spec C07.ProofsExp C07.ProofsMl C07.ProofsInv C07.ProofsTop C07.ProofsExtra C07.ProofsCoop C07.ProofsCoopMl.
 Import ListNotations.
 Local Open Scope Q_scope.
 
@@ -75,6 +75,66 @@ Example ex_coop_nonvacuous :
               CRecord [1; 2]%nat [1%nat] [1; 0]%nat [5; 1]; CRecord [1; 2]%nat [1%nat] [0; 0]%nat [7; 1]] in
   forallb (cop_ok g) ops = true /\ cg_id g 0 [1; 2]%nat [1%nat] = 7%nat /\ cg_size g 0 = 8%nat /\
   nth 7 (r_avg (cnode (cexp_after g ops) 0)) 0 == 6 /\ nth 7 (r_m2 (cnode (cexp_after g ops) 0)) 0 == 2.
+Proof. cbv zeta. repeat split; vm_compute; reflexivity. Qed.
+
+(* CooperativeMaximumLikelihoodModel, for every sequence of joint records / resets / sync() / sync(s,a) /
+   sync(indeces) and either constructor flag: each CPT row (node i, parent-set row j) that was synced
+   while it had data and has not been the target of a record since (marking computed by Spec.ctrack)
+   is the empirical distribution of its counts, and its reward the empirical mean of node i's rewards
+   over the records mapping to that row. *)
+Theorem coop_ml_is_empirical : forall g pre flag post,
+  forallb (cop_ok g) pre = true -> forallb (cop2_ok g) post = true ->
+  let m := snd (crun g pre flag post) in
+  let h := fst (ctrack g pre flag post) in let mk := snd (ctrack g pre flag post) in
+  forall i j, (i < length (cgS g))%nat -> (j < cg_size g i)%nat -> mk i j = true ->
+    (0 < ctot g h i j)%nat /\
+    (forall v, (v < nth i (cgS g) 0)%nat -> CT m i j v == cfreq g h i j v) /\
+    CR m i j == cmean g h i j.
+Proof. exact coop_ml_is_empirical_lemma. Qed.
+Print Assumptions coop_ml_is_empirical.
+
+(* the history the marking is computed over is the definitional one: records since the last reset *)
+Theorem coop_track_history : forall g pre flag post,
+  fst (ctrack g pre flag post) = chist_of (pre ++ cexp_ops post).
+Proof. exact ctrack_hist. Qed.
+Print Assumptions coop_track_history.
+
+(* rows never targeted by a record keep the constructor's default: all mass on value 0, zero reward *)
+Theorem coop_unvisited_default : forall g pre flag post i j,
+  (i < length (cgS g))%nat -> (j < cg_size g i)%nat ->
+  forallb (cnever g i j) pre = true -> forallb (cnever2 g i j) post = true ->
+  let m := snd (crun g pre flag post) in
+  (forall v, (v < nth i (cgS g) 0)%nat -> CT m i j v = dflt_cell v) /\ CR m i j = 0.
+Proof. exact coop_unvisited_default_lemma. Qed.
+Print Assumptions coop_unvisited_default.
+
+Example ex_coop_ml_nonvacuous :
+  let g := mkCG [2; 3]%nat [2]%nat [([0%nat], [[0%nat]; [0; 1]%nat]); ([0%nat], [[1%nat]; [0%nat]])] in
+  let post := [C2Exp (CRecord [1; 2]%nat [1%nat] [0; 1]%nat [1; 2]); C2Exp (CRecord [1; 2]%nat [1%nat] [1; 1]%nat [3; 2]);
+               C2SyncSA [1; 2]%nat [1%nat]; C2Exp (CRecord [0; 0]%nat [0%nat] [1; 0]%nat [5; 1])] in
+  forallb (cop2_ok g) post = true /\ snd (ctrack g [] false post) 0%nat 7%nat = true /\
+  CT (snd (crun g [] false post)) 0 7 1 == 1 # 2 /\ CR (snd (crun g [] false post)) 0 7 == 2 /\
+  snd (ctrack g [] false post) 0%nat 0%nat = false.
+Proof. cbv zeta. repeat split; vm_compute; reflexivity. Qed.
+
+(* Factored::Bandit::Experience: every local arm of every dependency group reports the count, mean
+   and M2 of exactly the joint records whose action maps to that arm since the last reset *)
+Theorem fbandit_welford_exact : forall A deps ops, forallb (fbop_ok A deps) ops = true ->
+  let e := fbexp_after A deps ops in let h := fbhist_of ops in
+  fb_ts e = length h /\
+  forall i, (i < length deps)%nat -> forall arm, (arm < pspace (nth i deps []) A)%nat ->
+    let b := fbnode e i in let hi := map (fbproj A deps i) h in
+    nth arm (b_vis b) 0%nat = length (arm_rewards hi arm) /\
+    nth arm (b_avg b) 0 == mean (arm_rewards hi arm) /\
+    nth arm (b_m2 b) 0 == m2 (arm_rewards hi arm).
+Proof. exact fbandit_welford_exact_lemma. Qed.
+Print Assumptions fbandit_welford_exact.
+
+Example ex_fbandit_nonvacuous :
+  let A := [2; 3; 2]%nat in let deps := [[0; 1]; [1; 2]]%nat in
+  let ops := [FRecord [1; 2; 0]%nat [1; 4]; FReset; FRecord [1; 2; 0]%nat [3; 4]; FRecord [1; 2; 1]%nat [7; 0]] in
+  forallb (fbop_ok A deps) ops = true /\ pidx [0; 1]%nat A [1; 2; 0]%nat = 5%nat /\
+  nth 5 (b_avg (fbnode (fbexp_after A deps ops) 0)) 0 == 5 /\ nth 5 (b_m2 (fbnode (fbexp_after A deps ops) 0)) 0 == 8.
 Proof. cbv zeta. repeat split; vm_compute; reflexivity. Qed.
 
 (* setVisitsTable: the sums are the row sums of the table that was set *)
